@@ -281,3 +281,143 @@ def gen_script(rng, alphabet, n_ops, max_mods=4, depth=2):
     for _ in range(n_ops):
         g.op(0)
     return g.lines
+
+
+# ---------------------------------------------------------------------------------------------------
+# trace alignment: which output lines belong to which script line (nesting included)
+
+ENV_ONLY = ('make_ready', 'drain', 'errno')
+
+
+class Rec:
+    __slots__ = ('op', 'depth', 'result', 'dump', 'out', 'invokes', 'parent_cb', 'prev_dump', 'nested')
+
+    def __init__(self, op, depth, parent_cb):
+        self.op, self.depth, self.parent_cb = op, depth, parent_cb
+        self.result, self.dump, self.out, self.invokes = None, None, [], []
+        self.prev_dump, self.nested = None, 0
+
+
+def align(lines, out):
+    """-> (records in script order, ok).  A record's `out` holds the non-structural lines (free/close/BATCH…)
+    printed while the op was the innermost active one; `invokes` the INVOKE lines of callbacks it triggered."""
+    recs = []
+    events = []      # output order: ('I', invoke line, record) / ('R', record)
+    st = {'i': 0, 'j': 0, 'ok': True, 'last_dump': None}
+
+    def exec_op(depth, parent_cb):
+        if st['i'] >= len(lines):
+            return 'ret'
+        op = lines[st['i']]
+        st['i'] += 1
+        t = op.split()
+        if not t:
+            return None
+        if t[0] == 'ret':
+            return 'ret'
+        if t[0] in ENV_ONLY:
+            return None
+        r = Rec(op, depth, parent_cb)
+        r.prev_dump = st['last_dump']
+        recs.append(r)
+        while True:
+            if st['j'] >= len(out):
+                st['ok'] = False
+                return None
+            o = out[st['j']]
+            st['j'] += 1
+            if o.startswith('INVOKE '):
+                r.invokes.append(o)
+                events.append(('I', o, r))
+                # callback body: nested script lines until `ret` (or the end of the script)
+                while True:
+                    if st['i'] >= len(lines):
+                        break
+                    r.nested += 1
+                    if exec_op(depth + 1, o) == 'ret':
+                        break
+                continue
+            if o.startswith('= '):
+                r.result = o[2:]
+                if st['j'] < len(out) and out[st['j']].startswith('S '):
+                    r.dump = out[st['j']]
+                    st['last_dump'] = r.dump
+                    st['j'] += 1
+                events.append(('R', None, r))
+                return None
+            if o in ('bad-handle', 'bad-op'):
+                r.result = o
+                return None
+            if o.startswith('FAULT'):
+                r.result = o
+                st['ok'] = False
+                return None
+            r.out.append(o)
+
+    while st['i'] < len(lines) and st['ok']:
+        exec_op(0, None)
+    return recs, events, st['ok']
+
+
+def parse_dump(d):
+    """'S ctx=loop,q run=2 | h0:R:p1:s0:u0:b0/0:st0:r0:tk- h1:Z' -> (ctx dict, {handle: fields})"""
+    if d is None:
+        return None, {}
+    head, _, tail = d[2:].partition('|')
+    ctx = {'state': None, 'run': None, 'quit': False, 'fin': False}
+    for tok in head.split():
+        if tok.startswith('ctx='):
+            parts = tok[4:].split(',')
+            ctx['state'] = parts[0]
+            ctx['quit'] = 'q' in parts[1:]
+            ctx['fin'] = 'fin' in parts[1:]
+        elif tok.startswith('run='):
+            ctx['run'] = int(tok[4:])
+    mods = {}
+    for tok in tail.split():
+        f = tok.split(':')
+        m = {'state': f[1]}
+        for x in f[2:]:
+            if x.startswith('st'): m['stash'] = int(x[2:])
+            elif x.startswith('tk'): m['tk'] = None if x[2:] == '-' else int(x[2:])
+            elif x.startswith('p'): m['pipe'] = int(x[1:])
+            elif x.startswith('s'): m['srcs'] = int(x[1:])
+            elif x.startswith('u'): m['subs'] = int(x[1:])
+            elif x.startswith('b'): m['blen'], m['bq'] = x[1:].split('/')[0], int(x[1:].split('/')[1])
+            elif x.startswith('r'): m['recvs'] = int(x[1:])
+        mods[f[0]] = m
+    return ctx, mods
+
+
+def parse_invoke(o):
+    """'INVOKE on_evt#2 h1:R ps(ta,h0,p3,0,u1) fd(f2,u4)' -> (cb, handler, handle, state, [events])"""
+    t = o.split()
+    cb = t[1]
+    hd = None
+    if '#' in cb:
+        cb, hd = cb.split('#')
+        hd = int(hd)
+    h, _, stt = t[2].partition(':')
+    evs = []
+    for e in t[3:]:
+        kind, _, rest = e.partition('(')
+        evs.append((kind, rest.rstrip(')').split(',')))
+    return cb, hd, h, stt, evs
+
+
+LEGAL_EDGES = {('I', 'R'), ('R', 'P'), ('P', 'R'), ('R', 'S'), ('P', 'S'), ('S', 'R'),
+               ('I', 'Z'), ('R', 'Z'), ('P', 'Z'), ('S', 'Z')}
+
+
+def legal_path(a, b):
+    """is b reachable from a along documented edges (several transitions can happen inside one call)"""
+    if a == b:
+        return True
+    seen, todo = {a}, [a]
+    while todo:
+        x = todo.pop()
+        for (p, q) in LEGAL_EDGES:
+            if p == x and q not in seen:
+                seen.add(q)
+                todo.append(q)
+    return b in seen
